@@ -40,6 +40,12 @@ PROBES = [
     ('format', 'select a, b from t where x in (1,2) -- c\norder by 1',
      {'strip_comments': True}),
     ('process', 'recursionlimit+switchinterval', {}),
+    ('format', 'select a, (select b from u where c = 1) from t where d = 2',
+     {'reindent_aligned': True, 'indent_tabs': True}),
+    ('parsebytes', 'select \u00e9t\u00e9, \u4e2d from t where n = \'\u00fc\'',
+     {}),
+    ('format', 'select \'\' as e, \'abcdefghij\' as v from t',
+     {'truncate_strings': 4}),
 ]
 
 
@@ -66,6 +72,9 @@ def observe(sqlparse, probe):
             return sqlparse.format(text, **dict(opts))
         if api == 'tokens':
             return [(str(tt), v) for tt, v in sqlparse.lexer.tokenize(text)]
+        if api == 'parsebytes':
+            # UTF-8 bytes without an encoding argument
+            return [dump(s) for s in sqlparse.parse(text.encode('utf-8'))]
         if api == 'process':
             # process-wide settings the library has no business changing
             return [sys.getrecursionlimit()]
